@@ -454,6 +454,23 @@ func c16Effect(ec *effectCfg, base, input string) (*fw.Finding, bool) {
 	if d := impl.DiffObs(r.obs.Obs, mu.Observe()); d != "" {
 		return fw.F("c16:effect:"+ec.Name, subj(input, base), "[%s] base=%q input=%q: %s", ec.Name, base, input, d), true
 	}
+	// the derived accessors follow the CONFIGURED scheme table too: special-ness and the default port behind
+	// DecodedPort() are those of this parser, not of the built-in table
+	if cfg.Special != nil {
+		dp, isSp := cfg.Special[r.obs.Scheme]
+		want := 0
+		if r.obs.Obs.Port != "" {
+			fmt.Sscan(r.obs.Obs.Port, &want)
+		} else if isSp && dp != "" {
+			fmt.Sscan(dp, &want)
+		}
+		if r.obs.Special != isSp {
+			return fw.F("c16:effect-derived:"+ec.Name, subj(input, base), "[%s] base=%q input=%q: IsSpecialScheme()=%v for scheme %q, the configured table says %v", ec.Name, base, input, r.obs.Special, r.obs.Scheme, isSp), true
+		}
+		if r.obs.DecodedPort != want {
+			return fw.F("c16:effect-derived:"+ec.Name, subj(input, base), "[%s] base=%q input=%q: %q has Port()=%q and DecodedPort()=%d, expected %d (configured default port of %q: %q)", ec.Name, base, input, r.obs.Href, r.obs.Obs.Port, r.obs.DecodedPort, want, r.obs.Scheme, dp), true
+		}
+	}
 	return nil, true
 }
 
